@@ -59,11 +59,23 @@ def has_line(self):
     return self._current_line_number is not None
 
 
+def line_fields_coherent(self):
+    """(conjuncts of RI) the text of the current line is there exactly when its number is, and the column is
+    inside it"""
+    if self._current_line_number is None:
+        return self._current_line_text is None
+    return self._current_line_text is not None \
+        and 0 <= self._column_index and self._column_index <= len(self._current_line_text)
+
+
 P_DP = 'exactly_lib.section_document.impl.document_parser'
 
 
 ALSO_ABSTRACT = ('exactly_lib.section_document.element_parsers.optional_description_and_instruction_parser:'
-                 'InstructionWithOptionalDescriptionParser.parse',)
+                 'InstructionWithOptionalDescriptionParser.parse',
+                 # (D7) only calls ParseSource methods and the line-syntax predicates: verified through their contracts
+                 'exactly_lib.section_document.element_parsers.optional_description_and_instruction_parser:'
+                 'InstructionWithOptionalDescriptionParser._consume_space_and_comment_lines',)
 
 
 def at_document_level(interp):
@@ -295,6 +307,8 @@ M.contract(P_PS + ':ParseSource.consume_current_line', inline=NOT_IN_DOCUMENT_PA
                (self._current_line_number == old[0][2] + 1) if has_line(self) else off_of(self, orig) == len(orig),
                'not-moved-back-and-at-a-line-start': lambda self, orig, old:
                off_of(self, orig) >= old[1] and ((not has_line(self)) or self._column_index == 0),
+               # (D7: a fact of RI that the document level, where RI is uninterpreted, needs by itself)
+               'a-current-line-has-a-text': lambda self: line_fields_coherent(self),
                'the-line-before-the-new-position-is-the-line-consumed': lambda self, orig, old:
                _line_start_at(orig, old[2]) and last_consumed_line(orig, self) == old[0][3],
            }, raises_only=())
@@ -1847,7 +1861,8 @@ M.contract(P_ODI + ':_DescriptionExtractor.apply', event='extract-description',
            raises={RecognizedSectionElementSourceError: {'ensures': lambda self, orig, old:
                    RI(self.source, orig) and off_of(self.source, orig) >= old}},
            ensures={'source-well-formed-moved-forward-with-a-current-line': lambda self, orig, old:
-                    RI(self.source, orig) and off_of(self.source, orig) >= old and has_line(self.source)},
+                    RI(self.source, orig) and off_of(self.source, orig) >= old and has_line(self.source),
+                    'the-current-line-has-a-text': lambda self: line_fields_coherent(self.source)},
            raises_only=())
 
 P_ODI_P = P_ODI + ':InstructionWithOptionalDescriptionParser'
@@ -1858,7 +1873,7 @@ LINE = Inst(Line, _tuple=[Int, Str])
 # switched off, the contract is ASSUMED (trusted) where InstructionWithOptionalDescriptionParser.parse uses it, and
 # the function is covered by the bounded stand-in `_consume_space_and_comment_lines on all small texts` (and, end to
 # end, by the stand-in for the assembled parser: description / comment / blank lines in front of instructions).
-_CONSUME_SPACE_AND_COMMENT_LINES_PROOF = False
+_CONSUME_SPACE_AND_COMMENT_LINES_PROOF = True
 if not _CONSUME_SPACE_AND_COMMENT_LINES_PROOF:
     M.trust('InstructionWithOptionalDescriptionParser._consume_space_and_comment_lines: contract assumed (proof '
             'switched off on the merged engine, see _CONSUME_SPACE_AND_COMMENT_LINES_PROOF); bounded stand-in: all '
@@ -1873,17 +1888,19 @@ def _consume_space_and_comment_lines_on_small_texts(ctx):
 
 M.contract(P_ODI_P + '._consume_space_and_comment_lines', trusted=not _CONSUME_SPACE_AND_COMMENT_LINES_PROOF,
            params=dict(source=PARSE_SOURCE, first_line=LINE), ghosts=dict(orig=Str),
-           requires=lambda source, orig: RI(source, orig) and has_line(source),
+           requires=lambda source, orig: RI(source, orig) and has_line(source) and line_fields_coherent(source),
            old=lambda source, orig: off_of(source, orig),
            modifies=frame(source=PS_FRAME),
            raises={UNRECOGNIZED: {'ensures': lambda source, orig, old:
                    RI(source, orig) and off_of(source, orig) >= old}},
            ensures={'source-well-formed-moved-forward-with-a-current-line': lambda source, orig, old:
-                    RI(source, orig) and off_of(source, orig) >= old and has_line(source)},
+                    RI(source, orig) and off_of(source, orig) >= old and has_line(source),
+                    'the-current-line-has-a-text': lambda source: line_fields_coherent(source)},
            raises_only=())
 if _CONSUME_SPACE_AND_COMMENT_LINES_PROOF:
     M.loop(P_ODI_P + '._consume_space_and_comment_lines', 0,
-           invariant=lambda source, orig, old: RI(source, orig) and off_of(source, orig) >= old,
+           invariant=lambda source, orig, old: RI(source, orig) and off_of(source, orig) >= old
+           and line_fields_coherent(source),
            modifies={'source._column_index': Int, 'source.source_string': Str,
                      'source._current_line_number': Opt(Int), 'source._current_line_text': Opt(Str),
                      'line_in_error_message': LINE})
